@@ -321,7 +321,127 @@ func hookFacts(repo string, w *bytes.Buffer) error {
 	defStrings(w, "for each applied kind (same order): the `srv.hooks` field the folded hook is assigned to", "appliedHookFields", appliedSets)
 	defStrings(w, "applied kinds whose fold is `for i := len(ks); i > 0; i-- { h = ks[i-1](h) }` (first plugin ends up outermost)", "appliedOutermostFirst", outerFirst)
 	defStrings(w, "how plugins reach the fold: appended to `srv.plugins` in `plugin_order`, wrappers collected by a forward range over it", "pluginOrderFacts", orderFacts)
+	return x.installOrderFacts(pkg, w)
+}
+
+// installOrderFacts: WHEN the folded hooks are installed relative to every place that takes a hook VALUE (a copy of
+// `srv.hooks.X` that is stored or passed on, as opposed to a call `srv.hooks.X(...)` or a nil test, which read the field
+// at call time). A copy taken before `initPluginHooks` has run is a hook without the plugins' wrappers for ever.
+//
+//	initHookOrder  : events of (*server).init in source order — "install" (the initPluginHooks call), "capture:X",
+//	                 "call:X", "load" (loadPlugins)
+//	initHookOrderN : the same as numbers (0 install, 1 capture, 2 call, 3 load)
+//	hookCapturesElsewhere : "func:X" for captures in other functions of package server
+//	hookCapturesInitPhaseN : how many of those are in functions that run before init has returned
+func (x *hookExtractor) installOrderFacts(pkg *ast.Package, w *bytes.Buffer) error {
+	initPhase := map[string]bool{"New": true, "initAPIRegistrar": true, "loadPlugins": true, "defaultServer": true}
+	type ev struct {
+		pos  token.Pos
+		s    string
+		code int
+	}
+	var inInit []ev
+	var elsewhere []string
+	initPhaseN := 0
+	foundInit := 0
+	names := make([]string, 0, len(pkg.Files))
+	for n := range pkg.Files {
+		names = append(names, n)
+	}
+	sortStrings(names)
+	for _, fname := range names {
+		for _, d := range pkg.Files[fname].Decls {
+			fd, ok := d.(*ast.FuncDecl)
+			if !ok || fd.Body == nil {
+				continue
+			}
+			if fd.Name.Name == "initPluginHooks" {
+				continue
+			}
+			isInit := fd.Name.Name == "init" && fd.Recv != nil
+			if isInit {
+				foundInit++
+			}
+			callee := map[ast.Expr]bool{}
+			niltest := map[ast.Expr]bool{}
+			ast.Inspect(fd.Body, func(n ast.Node) bool {
+				switch v := n.(type) {
+				case *ast.CallExpr:
+					callee[v.Fun] = true
+					if isInit {
+						switch p := selPath(v.Fun); {
+						case strings.HasSuffix(p, ".initPluginHooks"):
+							inInit = append(inInit, ev{v.Pos(), "install", 0})
+						case strings.HasSuffix(p, ".loadPlugins"):
+							inInit = append(inInit, ev{v.Pos(), "load", 3})
+						}
+					}
+				case *ast.BinaryExpr:
+					if (v.Op == token.NEQ || v.Op == token.EQL) && isIdent(v.Y, "nil") {
+						niltest[v.X] = true
+					}
+				}
+				return true
+			})
+			ast.Inspect(fd.Body, func(n ast.Node) bool {
+				sel, ok := n.(*ast.SelectorExpr)
+				if !ok {
+					return true
+				}
+				p := selPath(sel)
+				i := strings.Index(p, ".hooks.")
+				if i < 0 || strings.Count(p[i+7:], ".") != 0 {
+					return true
+				}
+				field := p[i+7:]
+				switch {
+				case niltest[sel]:
+				case callee[sel]:
+					if isInit {
+						inInit = append(inInit, ev{sel.Pos(), "call:" + field, 2})
+					}
+				default:
+					// assignments TO the field (srv.hooks.X = …) are not captures
+					if isInit {
+						inInit = append(inInit, ev{sel.Pos(), "capture:" + field, 1})
+					} else {
+						elsewhere = append(elsewhere, fd.Name.Name+":"+field)
+						if initPhase[fd.Name.Name] {
+							initPhaseN++
+						}
+					}
+				}
+				return false
+			})
+		}
+	}
+	if foundInit != 1 {
+		return fmt.Errorf("expected exactly one method init in package server, found %d", foundInit)
+	}
+	for i := 1; i < len(inInit); i++ {
+		for j := i; j > 0 && inInit[j].pos < inInit[j-1].pos; j-- {
+			inInit[j], inInit[j-1] = inInit[j-1], inInit[j]
+		}
+	}
+	var ss, ns []string
+	for _, e := range inInit {
+		ss = append(ss, e.s)
+		ns = append(ns, fmt.Sprint(e.code))
+	}
+	sortStrings(elsewhere)
+	defStrings(w, "(*server).init in source order: \"install\" = the initPluginHooks call, \"capture:X\" = a copy of srv.hooks.X is taken, \"call:X\", \"load\" = loadPlugins", "initHookOrder", ss)
+	fmt.Fprintf(w, "/-- the same as numbers: 0 install, 1 capture, 2 call, 3 load -/\ndef initHookOrderN : List Nat :=\n  [%s]\n\n", strings.Join(ns, ", "))
+	defStrings(w, "copies of srv.hooks.X taken in other functions of package server (\"func:X\"); they run after init has returned", "hookCapturesElsewhere", elsewhere)
+	fmt.Fprintf(w, "/-- how many of those are in functions that run before init has returned (New, initAPIRegistrar, loadPlugins) -/\ndef hookCapturesInitPhaseN : Nat := %d\n\n", initPhaseN)
 	return nil
+}
+
+func sortStrings(xs []string) {
+	for i := 1; i < len(xs); i++ {
+		for j := i; j > 0 && xs[j] < xs[j-1]; j-- {
+			xs[j], xs[j-1] = xs[j-1], xs[j]
+		}
+	}
 }
 
 // foldDirection recognises the two possible fold loops over slice v accumulating into h.
